@@ -192,10 +192,24 @@ func VX_C14_tojson() {
 		}
 	case "empty":
 		names, cols = []string{"a"}, []vxCol{vxMakeCol("int", P, 0)}
+	case "concrete":
+		// concrete cells through the real escaping and digit code
+		strs := []string{"\uFFFD", "\u2028", "a\u2029b", "\u00e9", "\xff", "\xe2\x80", "\xef\xbf", "tab\tq\"b\\", "\x7f\x00", "\U0001F600", ""}
+		fls := []float64{math.Copysign(0, -1), 0, 1.5, -2.5e-7, 1e21, 123456789, 0.1, 5e-324, 1e300, 0.30000000000000004, -1}
+		n = len(strs)
+		P = n
+		sc := vxCol{typ: "string", s: strs, null: make([]bool, n)}
+		fc := vxCol{typ: "float", f: fls}
+		names, cols = []string{"\uFFFD\u2028", "f"}, []vxCol{sc, fc}
 	}
 	ix := make([]uint32, n)
 	for k := range ix {
 		ix[k] = uint32(n - k)
+	}
+	if shape == "concrete" {
+		ix = vxIota(n)
+		k := vxConc(vx.IntN(0, n-1), n) // the solver enumerates which row comes first
+		ix[0], ix[k] = ix[k], ix[0]
 	}
 	f := vxFrame(names, cols, ix)
 	w := &vxBuf{}
